@@ -509,6 +509,11 @@ func multiFamily(m, maxLen int) family {
 				total += len(s.data)
 			}
 			for _, c := range multiConsumers {
+				if m > 2 && c.mode == "read1+copy" {
+					// the mixed path is enumerated for 1 and 2 sources only: each WriteTo
+					// call allocates 32 KiB, which dominates the cost of this family
+					continue
+				}
 				out, fs := evalMulti(srcs, c.mode, c.b)
 				u.evals++
 				if total > 0 {
@@ -570,7 +575,7 @@ func run(r *enumx.Run, replay *enumx.ReplayCase) {
 		return
 	}
 	r.Rule("complete product, no sampling: LimitReadCloser: limit N x source length 0..N+3 x every composition of the source into read chunks x every ending {io.EOF | sticky source error} x {returned alone | together with the last chunk} x {no zero-length read | one (0,nil) read before chunk p, every p} x consumer {Read loop | io.CopyBuffer, buffer 1..N+2 each | io.ReadAll}. " +
-		"MultiReaderCloser: 1..3 sources x every (length, composition, ending incl. http.ErrBodyReadAfterClose, zero-read position, closable or not) per source x consumer {Read loop buffer 1..4 | io.ReadAll | io.Copy (WriteTo) | one Read then io.Copy}; each case is observed once the stream has ended (= without a final Close) and again after Close. " +
+		"MultiReaderCloser: 1..3 sources x every (length, composition, ending incl. http.ErrBodyReadAfterClose, zero-read position, closable or not) per source x consumer {Read loop buffer 1..4 | io.ReadAll | io.Copy (WriteTo) | one Read then io.Copy (1 and 2 sources only)}; each case is observed once the stream has ended (= without a final Close) and again after Close. " +
 		"TeeReadCloser: every source as above (no ErrBodyReadAfterClose) x writer {accepts | room for T bytes then short write | room for T bytes then rejects}, T in 0..len-1 x consumer {Read loop | io.CopyBuffer, buffer 1..len+2 | io.ReadAll}. " +
 		"Every case is a distinct index tuple; non-trivial = the sources hand out at least one byte. A mid-stream error after chunk j of a longer source is the same script as the composition of its prefix ending in an error, so it is enumerated once, under the prefix length.")
 	r.Assume("sources follow the io.Reader contract (never n>len(p), sticky terminal condition); writers follow the io.Writer contract (n<len(p) only with a non-nil error)")
